@@ -3,7 +3,7 @@ canonical observation, twin run (cache on / Qube.DISABLE_CACHE=True) -> direct o
 import operator, os, sys
 import numpy as np
 import polymath
-from polymath import Qube, Scalar, Boolean, Vector, Vector3, Pair, Matrix, Units
+from polymath import Qube, Scalar, Boolean, Vector, Vector3, Pair, Matrix, Matrix3, Quaternion, Polynomial, Units
 import common as C
 import c18_py2lean as T2
 
@@ -33,7 +33,24 @@ def _m2(): return Matrix(np.arange(8.).reshape(2, 2, 2) + 1.)
 def _s3ro():
     a = _s3d(); return a.as_readonly()
 
-OBJECTS = {'S3m': _s3m, 'S3': _s3, 'S0': _s0, 'S0d': _s0d, 'S3d': _s3d, 'S23m': _s23m, 'I3': _i3, 'I0d': _i0d,
+def _m3():
+    c, s_ = np.cos(.5), np.sin(.5)
+    return Matrix3(np.array([np.eye(3), [[c, s_, 0.], [-s_, c, 0.], [0., 0., 1.]]]))
+def _q2(): return Quaternion(np.array([[1., 0., 0., 0.], [.5, .5, .5, .5]]), np.array([False, True]))
+def _p2():
+    a = Polynomial(np.array([[1., 2., 3.], [0., 1., 4.]]))
+    return a
+def _pr2(): return Pair(np.array([[1, 2], [3, 4]]), np.array([True, False]))
+def _s3dd():
+    a = Scalar(np.array([1., 2., 3.]), np.array([False, True, False]))
+    a.insert_deriv('t', Scalar(np.array([.5, .25, 2.])))
+    a.insert_deriv('xy', Scalar(np.arange(6.).reshape(3, 2) + 1., drank=1))       # a derivative with a denominator
+    return a
+def _s23bm():
+    # a writable array of values under a READ-ONLY broadcast view as mask (a mask shared by broadcasting)
+    return Scalar(np.arange(6.).reshape(2, 3), np.broadcast_to(np.array([False, True, False]), (2, 3)))
+
+OBJECTS = {'M3': _m3, 'Q2': _q2, 'P2': _p2, 'Pr2': _pr2, 'S3dd': _s3dd, 'S23bm': _s23bm, 'S3m': _s3m, 'S3': _s3, 'S0': _s0, 'S0d': _s0d, 'S3d': _s3d, 'S23m': _s23m, 'I3': _i3, 'I0d': _i0d,
            'B3': _b3, 'B0': _b0, 'V2d': _v2d, 'V0': _v0, 'M2': _m2, 'S3ro': _s3ro}
 
 DERIVED = {'plus1': lambda a: a + 1, 'minus1': lambda a: a - 1, 'times2': lambda a: a * 2, 'div2': lambda a: a / 2,
@@ -89,6 +106,12 @@ COMPACT = {
     'V0': _CQ + ['iadd:obj', 'imul:num', 'imul:objT', 'set:all:num', 'insd:t'],
     'M2': _CQ + ['imul:num', 'imul:obj', 'iadd:objm', 'set:0:masked', 'ro'],
     'S3ro': _CQ + ['iadd:num', 'insd:u', 'deld:t', 'units:km', 'set:0:num', 'shun:arr'],
+    'M3': _CQ + ['imul:obj', 'imul:num', 'itruediv:num', 'itruediv:objz', 'set:0:masked', 'insd:t'],
+    'Q2': _CQ + ['imul:num', 'iadd:objm', 'itruediv:objz', 'set:0:masked', 'ro'],
+    'P2': _CQ + ['iadd:obj', 'isub:objm', 'imul:num', 'itruediv:num', 'itruediv:objz', 'set:0:masked'],
+    'Pr2': _CQ + ['iadd:objm', 'imul:num', 'ifloordiv:objz', 'imod:zero', 'iand:objm', 'set:sl:obj'],
+    'S3dd': _CQ + ['iadd:num', 'imul:num', 'imul:objd', 'itruediv:objzd', 'set:0:masked', 'deld:t', 'deld:xy', 'shun:arr'],
+    'S23bm': _CQ + ['iadd:num', 'iadd:objm', 'set:0:num', 'set:bm:num', 'imod:arrz', 'shun:arr', 'ro'],
 }
 
 
@@ -208,10 +231,20 @@ def apply_op(st, op):
     if h == 'hold':
         am = _antimask_arg(a)
         st['s'] = a.shrink(am); st['am'] = am
+        # evidence for the classification of finding KF-C18-1 (never used to judge the property)
+        st['held_state'] = canon_obj(a, ro=False)
+        if Qube.DISABLE_CACHE and st['s'] is not a:
+            # without the cache un-shrinking neither reads nor pops anything: the answer at shrink time
+            st['held_snapshot'] = canon_obj(st['s'].unshrink(am, a._shape_), ro=False)
         return 'ok'
     if h == 'unheld':
         if st.get('s') is None:
             return 'none'
+        st['now_state'] = canon_obj(a, ro=False)
+        try:
+            st['now_reference'] = canon_obj(a.mask_where(np.logical_not(st['am'])), ro=False)
+        except Exception:
+            st['now_reference'] = None
         return canon_obj(st['s'].unshrink(st['am'], a._shape_), ro=False)
     if h in IOPS:
         k = p[1]
@@ -402,7 +435,8 @@ def table_info():
         tab, failures = T2.generate(root)
         code_map = {}
         for q, info in tab.items():
-            code_map[(os.path.realpath(os.path.join(root, info['file'])), info['line'])] = ('mut', q)
+            if '/' not in q:         # "<Class>/<function>" rows are receiver-specific variants of the same code
+                code_map[(os.path.realpath(os.path.join(root, info['file'])), info['line'])] = ('mut', q)
             lists, index = T2.distinct_event_lists(info)
             info['distinct_index'] = index
             info['bearing'] = {c for p in info['paths'] for c in p['sig']}
@@ -479,7 +513,8 @@ class Tracer:
             return None
         rec = {'q': name, 'last': None, 'exc': False, 'map': self.ti['tab'][name]['stmt_map']}
         if not self.stack:
-            self.root = {'q': name, 'tokens': [], 'excmarks': set(), 'pre': snapshot(self.target)}
+            self.root = {'q': name, 'tokens': [], 'excmarks': set(), 'pre': snapshot(self.target),
+                         'cls': type(self.target).__name__}
         self.stack.append(rec)
         return self.mtrace
 
@@ -519,7 +554,7 @@ class Tracer:
             if not self.stack:
                 root = self.root
                 self.root = None
-                root.update({'t': 'm', 'raised': raised, 'post': snapshot(self.target), 'facts': facts(self.target),
+                root.update({'t': 'm', 'raised': raised, 'ret_none': arg is None, 'post': snapshot(self.target), 'facts': facts(self.target),
                              'view': cache_view(self.target)})
                 self.tokens.append(root)
         return self.mtrace
@@ -554,6 +589,8 @@ def mut_step(tok):
     """a top-level mutator token -> (model step, marker or None)"""
     ti = table_info()
     q0 = tok['q']
+    if tok.get('cls', '') + '/' + q0 in ti['tab']:
+        q0 = tok['cls'] + '/' + q0          # the receiver's class dispatches `self.m()` differently
     info = ti['tab'][q0]
     post = tok['facts']
     dyn_all = [t[1] for t in tok['tokens'] if t[0] == 's' and t[1] in info['bearing']]
@@ -586,6 +623,31 @@ def mut_step(tok):
         return ['m', q0, info['distinct_index'][match], post, fills], None
     if not tok['raised']:
         return None, 'unmatched-path:%s' % q0
+    # an exception cut the path at a point where the table says a helper may raise (`mayRaise`): the prefix is a
+    # step the theorems speak about
+    for i, p in enumerate(info['paths']):
+        for ex in p['exits']:
+            if dyn == ex['pre'] or (ex['next'] is not None and dyn == ex['pre'] + (ex['next'],)
+                                    and ex['next'] not in ex['pre']):
+                pre_events = p['events'][:ex['k']]
+                predicted = {e[1] for e in pre_events if e[0] == 'write'}
+                if not written <= predicted:
+                    continue
+                slots = p['fill_slots'][:ex['nfills']]
+                fills = [[] for _ in slots]
+                seen, ok = set(), True
+                for t in tok['tokens']:
+                    if t[0] == 's':
+                        if t[1] in info['bearing']:
+                            seen.add(t[1])
+                    else:
+                        g = len(seen)
+                        cand = [j for j, c in enumerate(slots) if c == g] or [j for j, c in enumerate(slots) if c < g][-1:]
+                        if not cand:
+                            ok = False; break
+                        fills[cand[0]].append(fill_names(t))
+                if ok:
+                    return ['mp', q0, info['distinct_index'][i], ex['k'], post, fills], None
     # an exception left the mutator in the middle of a path: explicit events of the statements that ran
     evs, fills, predicted = [], [], set()
     for t in tok['tokens']:
@@ -635,6 +697,10 @@ def run_one(objname, ops, disable):
                     out = C.exc_name(e)
             finally:
                 sys.settrace(None)
+            # Python does not always deliver an 'exception' event to a frame that an exception leaves from inside an
+            # `except` block; the outcome of the whole operation settles it for the last mutator call
+            if out != 'ok' and tr.tokens and tr.tokens[-1]['t'] == 'm' and tr.tokens[-1]['ret_none']:
+                tr.tokens[-1]['raised'] = True
             per_op.append((tr.tokens, out, cache_view(a)))
         return init, per_op
     finally:
@@ -681,7 +747,8 @@ def run_plain(objname, ops, disable):
     try:
         a = OBJECTS[objname]()
         st = {'a': a, 's': None}
-        answers, stale = [], []
+        answers, stale, snaps = [], [], []
+        st['snaps'] = snaps
         for op in ops:
             try:
                 ans = apply_op(st, op)
@@ -689,6 +756,7 @@ def run_plain(objname, ops, disable):
                 ans = C.exc_name(e)
             answers.append(ans)
             stale.append([] if disable else stale_entries(a))
+            snaps.append({k: st.get(k) for k in ('held_state', 'held_snapshot', 'now_state', 'now_reference')})
         # final interrogation of every view
         final = []
         for q in ('q:antimask', 'q:corners', 'q:slicer', 'q:wod', 'q:count'):
@@ -715,8 +783,9 @@ def last_mutator(ops, k):
 def run_twins(objname, ops):
     """None, or (signature, what): the property judged directly on the real code"""
     ans_on, stale_on, fin_on, refs_on, st_on = run_plain(objname, ops, False)
-    ans_off, _, fin_off, refs_off, _ = run_plain(objname, ops, True)
+    ans_off, _, fin_off, refs_off, st_off = run_plain(objname, ops, True)
     held_at = None
+    snaps_on, snaps_off = st_on['snaps'], st_off['snaps']
     for k, op in enumerate(ops):
         if op.startswith('hold:'):
             held_at = k
@@ -734,7 +803,7 @@ def run_twins(objname, ops):
                     'history %s on %s: the new object returned by step %d (%s) is born with cached %s that differ from '
                     'recomputation from its own arrays' % (ops[:k + 1], objname, k, op, ans_on[k][-1][1:]))
         if ans_on[k] != ans_off[k]:
-            if op == 'unheld' and held_at is not None and any(not is_query(o) for o in ops[held_at + 1:k]):
+            if op == 'unheld' and held_at is not None and kf_c18_1(k, ans_on, ans_off, snaps_on, snaps_off):
                 sig = 'twin-differs:unheld:original-mutated-after-shrink'
             else:
                 sig = 'twin-differs:%s:after:%s' % (op, last_mutator(ops, k))
@@ -749,6 +818,16 @@ def run_twins(objname, ops):
             return ('wrong:final-%s:after:%s' % (n, last_mutator(ops, len(ops) - 1)),
                     'history %s on %s: final %s is %s, recomputation from the arrays gives %s' % (ops, objname, n, x, r))
     return None
+
+
+def kf_c18_1(k, ans_on, ans_off, snaps_on, snaps_off):
+    """is the difference at step k exactly finding KF-C18-1?  (i) the original has changed since it was shrunk;
+    (ii) without the cache the answer is still the one of shrink time (the shrunk COPY); (iii) with the cache it is
+    the CURRENT original masked outside the antimask (the cached REFERENCE).  Anything else is another defect."""
+    on, off = snaps_on[k], snaps_off[k]
+    return (on['held_state'] is not None and on['now_state'] != on['held_state']
+            and off.get('held_snapshot') is not None and ans_off[k] == off['held_snapshot']
+            and on['now_reference'] is not None and ans_on[k] == on['now_reference'])
 
 
 def tosx(o):
